@@ -1018,11 +1018,11 @@ def builder_units():
     u.append(raw("specs_builder", _read("specs_builder.rs")))
     # `impl Chain for ActionExprChain` emitted as an inherent impl (the trait only adds `impl Into<Option<_>>` sugar)
     u.append(fns(F_CHAIN, [
-        fn("new", "r", mode="assumed", ensures=["r.ident == ident", "r.members@ =~= members@"]),
+        fn("new", "r", ensures=["r.ident == ident", "r.members@ =~= members@"]),
         fn("append_member", "r", ensures=["final(self).members@ == old(self).members@.push(val)", "final(self).ident == old(self).ident", "r == final(self).members@.len()",
                                           "append_facts(old(self).members@, final(self).members@, val.action)"],
            proof_epilogue="proof { lemma_append_facts(old(self).members@, self.members@.last()); }"),
-        fn("set_id", "r", mode="assumed", ensures=["final(self).ident == val", "final(self).members@ == old(self).members@"]),
+        fn("set_id", "r", ensures=["r.ident == val", "r.members@ == old(self).members@", "*final(r) == *final(self)"]),
         fn("members", "r", ensures=["r@ == self.members@"],
            subst=[{"find": "&[Self::Member]", "replace": "&[ExprGroup<ActionExpr>]", "why": "associated type of the Chain impl written out (type Member = ExprGroup<ActionExpr>)"}]),
         fn("len", "r", ensures=["r == self.members@.len()"]),
@@ -1351,7 +1351,7 @@ OBLIGATIONS = {
     "C18": [("optable", "lemma_operator_tables"), ("core", "ProcessExpr::to_tokens"), ("core", "ErrExpr::to_tokens"), ("core", "ExprGroup::application_type"), ("core", "ExprGroup::new"), ("core", "ActionGroup::new"), ("gen", "JoinOutput::split_branch_steps"), ("steps", "JoinOutput::generate_steps"), ("steps", "JoinOutput::generate_thread_builders_and_spawn_joiners"), ("steps", "JoinOutput::generate_step_tail")],
     "C05": [("top", "generate_join"), ("top", "JoinOutput::new"), ("steps", "JoinOutput::join_steps"), ("steps", "lemma_join_comma"), ("steps", "lemma_count_take_step"), ("gen", "JoinOutput::generate_results_transposer"), ("parse", "parse_until_suffix"), ("parse", "ActionGroup::parse_stream"),
             ("core", "ActionGroup::to_wrapper_action_expr"), ("core", "ActionGroup::new"), ("core", "ExprGroup::application_type")],
-    "C12": [("sep", "JoinOutput::separate_block_expr_process"), ("sep", "JoinOutput::separate_block_expr_err"), ("sep", "JoinOutput::separate_block_expr_initial"), ("sep", "lemma_sep_step"), ("steps", "JoinOutput::join_steps"), ("steps", "lemma_join_comma"), ("steps", "lemma_count_take_step"), ("builder", "ActionExprChainBuilder::build_from_parse_stream"), ("gen", "JoinOutput::branch_result_name"), ("gen", "JoinOutput::branch_result_pat")],
+    "C12": [("sep", "JoinOutput::separate_block_expr_process"), ("sep", "JoinOutput::separate_block_expr_err"), ("sep", "JoinOutput::separate_block_expr_initial"), ("sep", "lemma_sep_step"), ("steps", "JoinOutput::join_steps"), ("steps", "lemma_join_comma"), ("steps", "lemma_count_take_step"), ("builder", "ActionExprChainBuilder::build_from_parse_stream"), ("builder", "ActionExprChain::set_id"), ("builder", "ActionExprChain::new"), ("gen", "JoinOutput::branch_result_name"), ("gen", "JoinOutput::branch_result_pat")],
     "C15": [("parse", "ParseUntil::scan_step"), ("builder", "ActionExprChainBuilder::parse_unit"), ("builder", "JoinInputDefault::parse_branches"), ("top", "generate_join"), ("top", "JoinOutput::new"), ("top", "JoinOutput::new_fields"), ("top", "lemma_new_fields"), ("steps", "JoinOutput::generate_steps"), ("gen", "lemma_split_balance"), ("gen", "lemma_accepted_chain_never_underflows"), ("gen", "lemma_split_members"), ("gen", "lemma_accepted_branch"), ("builder", "lemma_member_ok"), ("builder", "lemma_unwrap_only_from_unwrap"), ("gen", "JoinOutput::split_branch_steps"), ("gen", "JoinOutput::generate_step_branch"), ("parse", "parse_until_suffix"), ("builder", "ActionExprChainBuilder::build_from_parse_stream"), ("builder", "ActionExprChain::append_member"),
             ("builder", "lemma_append_facts"), ("builder", "lemma_balanced_depth"),
             ("gen", "JoinOutput::wrap_last_step_stream"), ("gen", "JoinOutput::process_step_action_expr"),
